@@ -49,6 +49,13 @@ def obligations(tier, seed=0):
     add('pow_int', bc=4, n=3, prec=3, rnd='n', entry='op')
     add('pow_int', bc=4, n=-2, prec=3, rnd='n', entry='op')
     add('pow_int', bc=5, n=2, prec=3, rnd='n', entry='op')
+    # the general power with an integer-valued mpf exponent (x ** mpf(n), x ** -3.0, mp.power): same obligations as the int route;
+    # negative exponents with powers longer than prec + 10 bits and directed modes (reciprocal rounding of the intermediate)
+    for rnd in 'fcdu':
+        add('pow_int', bc=12, n=-3, prec=2, rnd=rnd, entry='powf')
+        add('pow_int', bc=14, n=-2, prec=3, rnd=rnd, entry='powf')
+    for n in (0, 1, 2, 3, -1):
+        add('pow_int', bc=5, n=n, prec=4, rnd='n', entry='powf')
     # exponents with more significant bits than the working precision (the int must not be rounded on its way to the kernel)
     add('pow_int', bc=3, n=9, prec=3, rnd='n', entry='op')
     add('pow_int', bc=2, n=5, prec=2, rnd='n', entry='op')
